@@ -341,6 +341,14 @@ def numTotalCmp : Num → Num → Ordering
   | .inf, _ | _, .ninf => .gt
   | .ninf, _ | _, .inf => .lt
 
+/-- integers exactly; an integer spelling before a non-integer spelling of the same value -/
+def intKeyCmp (x y : Str) : Ordering :=
+  match parseI64? x, parseI64? y with
+  | some m, some n => ordOfBool (m < n) (m == n)
+  | some _, none => .lt
+  | none, some _ => .gt
+  | none, none => .eq
+
 /-- comparison of two cells of grouped rows (D80 fix: a total order): numbers by value and before everything
     that is no number; cells of equal value: integers exactly, an integer before a non-integer spelling, then as text -/
 def cellCmp (x y : Str) : Ordering :=
@@ -348,11 +356,7 @@ def cellCmp (x y : Str) : Ordering :=
   | some u, some v =>
     let o := numTotalCmp u v
     if o != .eq then o else
-    let o2 := match parseI64? x, parseI64? y with
-      | some m, some n => ordOfBool (m < n) (m == n)
-      | some _, none => .lt
-      | none, some _ => .gt
-      | none, none => .eq
+    let o2 := intKeyCmp x y
     if o2 != .eq then o2 else cmpText x y
   | some _, none => .lt
   | none, some _ => .gt
